@@ -298,6 +298,55 @@ def r_capture(ck: Checker) -> None:
         ck.incomplete("R-CAPTURE", None, None, f"only {n} failing returns found (>= 8 expected)")
 
 
+def r_ctx_flow(ck: Checker) -> None:
+    """The context a composite matcher hands to its sub-matchers contains the context it received (a `$name` inside a nested pattern
+    refers to a capture made outside of it).  Dataflow over names: tainted = the context parameter and every local bound to / updated
+    with an expression mentioning a tainted name.  Positive pattern: a sub-matcher call whose context argument mentions no tainted name."""
+    n = 0
+    for qual in ("NodeMatcher._match", "SequenceMatcher._match"):
+        f = ck.repo.func(PAT, qual)
+        fn = f.node
+        cp = fn.args.args[2].arg
+        tainted = {cp}
+
+        def mentions(e: ast.AST) -> bool:
+            return any(isinstance(x, ast.Name) and x.id in tainted for x in ast.walk(e))
+        changed = True
+        while changed:
+            changed = False
+            for st in ast.walk(fn):
+                tgt: list[str] = []
+                val: ast.AST | None = None
+                if isinstance(st, (ast.Assign, ast.AnnAssign, ast.AugAssign)) and st.value is not None:
+                    ts = st.targets if isinstance(st, ast.Assign) else [st.target]
+                    tgt = [x.id for t in ts for x in ast.walk(t) if isinstance(x, ast.Name)]
+                    val = st.value
+                elif isinstance(st, ast.NamedExpr):
+                    tgt, val = [st.target.id], st.value
+                elif isinstance(st, ast.Call) and isinstance(st.func, ast.Attribute) and st.func.attr in ("update", "__ior__") and isinstance(st.func.value, ast.Name) and st.args:
+                    tgt, val = [st.func.value.id], st.args[0]
+                if val is not None and mentions(val):
+                    for t in tgt:
+                        if t not in tainted:
+                            tainted.add(t)
+                            changed = True
+        for c in ast.walk(fn):
+            if isinstance(c, ast.Call) and isinstance(c.func, ast.Attribute) and c.func.attr in ("match", "_match") and len(c.args) + len(c.keywords) >= 2 \
+                    and norm(c.func.value) != "self.pattern":
+                arg = c.args[1] if len(c.args) >= 2 else next((k.value for k in c.keywords if k.arg == "ctx"), None)
+                if arg is None:
+                    continue
+                n += 1
+                what = f"{qual}: the sub-matcher {norm(c.func.value)[:40]} sees the captures of the enclosing pattern (its context derives from `{cp}`)"
+                if mentions(arg):
+                    ck.holds("R-CAPTURE", f, c, what)
+                else:
+                    ck.violation("R-CAPTURE", f, c, what, positive=True,
+                                 construct=f"{qual}: {norm(c)[:70]} — the context `{norm(arg)[:30]}` is built without `{cp}`; a `$name` back-reference to an outer capture is undefined there")
+    if n < 3:
+        ck.incomplete("R-CAPTURE", None, None, f"only {n} sub-matcher calls with a context found (3 confirmed by hand)")
+
+
 def matcher_classes(ck: Checker) -> list[Cls]:
     return [ck.repo.cls(PAT, n) for n in MATCHERS]
 
@@ -427,7 +476,10 @@ def r_pure_match(ck: Checker) -> None:
         ck.violation("R-PURE-MATCH", shared[0], shared[1], what, construct=f"{shared[0].qualname}: patterns are compiled by the shared interpreter {shared[2]}")
     elif n_vis:
         ck.holds("R-PURE-MATCH", (ck.repo.mod(PAT).rel, "*"), None, what, evaluations=n_vis)
-    # cache discipline
+    r_cache_discipline(ck)
+
+
+def r_cache_discipline(ck: Checker, rule: str = "R-PURE-MATCH") -> None:
     fp = ck.repo.func(PAT, "NodeMatcher.from_pattern")
     what = "the pattern cache is keyed by the full pattern text and filled only on the success path"
     p = fp.node.args.args[1].arg
@@ -472,7 +524,7 @@ def r_pure_match(ck: Checker) -> None:
                 bad = bad or f"the stored matcher is not the one returned ({lf.val()})"
     if not bad and n_store == 0:
         bad = "no path stores the compiled matcher"
-    (ck.holds if not bad else ck.violation)("R-PURE-MATCH", fp, fp.node, what, **({"evaluations": len(leaves)} if not bad else {"construct": f"from_pattern: {bad}"}))
+    (ck.holds if not bad else ck.violation)(rule, fp, fp.node, what, **({"evaluations": len(leaves)} if not bad else {"construct": f"from_pattern: {bad}"}))
 
 
 def r_multi_order(ck: Checker) -> None:
@@ -614,6 +666,7 @@ def run(ck: Checker) -> None:
     ck.guard("R-ZIPGUARD", lambda: r_zipguard_seq(ck))
     ck.guard("R-TYPES-ALL", lambda: r_types_all(ck))
     ck.guard("R-CAPTURE", lambda: r_capture(ck))
+    ck.guard("R-CAPTURE", lambda: r_ctx_flow(ck))
     ck.guard("R-SINGLETON-STATE", lambda: r_singleton_state(ck, matcher_classes(ck)))
     ck.guard("R-POSTINIT-IDEMP", lambda: r_postinit_idemp(ck))
     ck.guard("R-PURE-MATCH", lambda: r_pure_match(ck))
